@@ -7,6 +7,10 @@
 // goroutines hammer the client with ordinary (auto-pipelined) commands.  Every command carries the name of its
 // issuer, so the fake server's per-connection logs tell who wrote what where.
 //
+// A quarter of the cases belong to the retry family (runRetry): a dedicated call that is retrying after -LOADING while
+// its session is released or closed in the back-off (inside the RetryDelay callback) and another session takes over
+// the connection.
+//
 // Direct oracle: on every pool connection the issuers form contiguous blocks (no foreign command between a
 // holder's first command and its release), all commands of one dedicated session are on one connection, nothing
 // of a session appears after its release, every call after release returns ErrDedicatedClientRecycled, the clean-up
@@ -42,11 +46,36 @@ type Step struct {
 type Case struct {
 	V7     bool   `json:"v7"`
 	Steps  []Step `json:"steps"`
-	Shared int    `json:"shared"` // goroutines of shared traffic
+	Shared int    `json:"shared"`          // goroutines of shared traffic
+	Retry  *Retry `json:"retry,omitempty"` // the retry family (runRetry) instead of a program
+}
+
+// Retry: a dedicated call that retries (retries enabled, read-only command, -LOADING replies that leave the connection
+// healthy) while its session is ended at one of the points of the call; the interleaving is fixed by doing the
+// release / Close inside the RetryDelay callback, i.e. in the back-off of the call.
+type Retry struct {
+	Entry   string `json:"entry"`          // do | multi: the entry point that retries
+	Loading int    `json:"loading"`        // number of -LOADING replies before the command succeeds (1..3)
+	At      int    `json:"at"`             // the session ends in the back-off after attempt At (1..Loading); 0: before the call; -1: after it
+	How     string `json:"how"`            // rel | close
+	Next    bool   `json:"next,omitempty"` // in the same back-off another session acquires a connection and opens MULTI
 }
 
 func genCase(r *gen.Rand, i int) any {
 	c := Case{V7: r.Chance(2, 3), Shared: r.Intn(4)}
+	if r.Chance(1, 4) {
+		rt := &Retry{Entry: gen.Pick(r, []string{"do", "multi"}), Loading: 1 + r.Intn(3), How: gen.Pick(r, []string{"rel", "rel", "close"}), Next: r.Chance(3, 4)}
+		switch x := r.Intn(8); {
+		case x == 0:
+			rt.At = 0
+		case x == 1:
+			rt.At = -1
+		default:
+			rt.At = 1 + r.Intn(rt.Loading)
+		}
+		c.Retry, c.Shared = rt, 0
+		return c
+	}
 	n := 4 + r.Intn(20)
 	next := 1
 	open := []int{}
@@ -89,9 +118,9 @@ func genCase(r *gen.Rand, i int) any {
 }
 
 var voc = func() psx.Vocab {
-	w := []string{"SET", "GET", "INCR", "WATCH", "MULTI", "EXEC", "SUBSCRIBE", "CLIENT", "TRACKING", "ON", "BCAST", "BLPOP", "0.01", "5", "v", ""}
+	w := []string{"SET", "GET", "INCR", "WATCH", "MULTI", "EXEC", "SUBSCRIBE", "CLIENT", "TRACKING", "ON", "BCAST", "BLPOP", "0.01", "5", "v", "", "LOADING", "m:rel"}
 	for d := 1; d <= 4; d++ {
-		for _, s := range []string{"k", "w", "c", "ch", "l"} {
+		for _, s := range []string{"k", "w", "c", "ch", "l", "r", "q"} {
 			w = append(w, "d"+strconv.Itoa(d)+":"+s)
 		}
 	}
@@ -113,8 +142,68 @@ func issuer(argv []string) string {
 	return ""
 }
 
+type connView struct {
+	id   int
+	cmds [][]string
+	subs int
+	trk  bool
+	live bool
+}
+
+// serverViews: what the server logged on every connection after its set-up (PINGs left out), in connection order
+func serverViews(s *fakeredis.Server) []connView {
+	var views []connView
+	liveIDs := map[int]bool{}
+	for _, fc := range s.Conns() {
+		liveIDs[fc.ID] = true
+	}
+	logByConn := map[int][][]string{}
+	maxConn := 0
+	for _, e := range s.LogCopy() {
+		if e.InTx {
+			continue // the execution of a queued command inside EXEC, not something the client sent
+		}
+		logByConn[e.Conn] = append(logByConn[e.Conn], e.Argv)
+		if e.Conn > maxConn {
+			maxConn = e.Conn
+		}
+	}
+	isSetup := func(a []string) bool {
+		switch a[0] {
+		case "HELLO", "AUTH", "SELECT", "READONLY", "INFO":
+			return true
+		case "CLIENT":
+			return len(a) > 1 && (a[1] == "SETINFO" || a[1] == "SETNAME" || a[1] == "NO-TOUCH" || a[1] == "NO-EVICT" || a[1] == "CAPA")
+		}
+		return false
+	}
+	for id := 1; id <= maxConn; id++ {
+		v := connView{id: id, live: liveIDs[id]}
+		for _, a := range logByConn[id] {
+			if isSetup(a) || a[0] == "PING" {
+				continue
+			}
+			v.cmds = append(v.cmds, a)
+		}
+		views = append(views, v)
+	}
+	for _, fc := range s.Conns() {
+		for i := range views {
+			if views[i].id == fc.ID {
+				s.Lock()
+				views[i].trk = fc.Tracking
+				s.Unlock()
+			}
+		}
+	}
+	return views
+}
+
 func run(ci any) (res obs.Result) {
 	c := ci.(Case)
+	if c.Retry != nil {
+		return runRetry(c)
+	}
 	res.Kind = "prog"
 	s := fakeredis.New()
 	if !c.V7 {
@@ -320,58 +409,7 @@ func run(ci any) (res obs.Result) {
 	close(stop)
 	wg.Wait()
 	time.Sleep(2 * time.Millisecond)
-	// read the server's view before closing the client
-	type connView struct {
-		id   int
-		cmds [][]string
-		subs int
-		trk  bool
-		live bool
-	}
-	var views []connView
-	liveIDs := map[int]bool{}
-	for _, fc := range s.Conns() {
-		liveIDs[fc.ID] = true
-	}
-	logByConn := map[int][][]string{}
-	maxConn := 0
-	for _, e := range s.LogCopy() {
-		if e.InTx {
-			continue // the execution of a queued command inside EXEC, not something the client sent
-		}
-		logByConn[e.Conn] = append(logByConn[e.Conn], e.Argv)
-		if e.Conn > maxConn {
-			maxConn = e.Conn
-		}
-	}
-	isSetup := func(a []string) bool {
-		switch a[0] {
-		case "HELLO", "AUTH", "SELECT", "READONLY", "INFO":
-			return true
-		case "CLIENT":
-			return len(a) > 1 && (a[1] == "SETINFO" || a[1] == "SETNAME" || a[1] == "NO-TOUCH" || a[1] == "NO-EVICT" || a[1] == "CAPA")
-		}
-		return false
-	}
-	for id := 1; id <= maxConn; id++ {
-		v := connView{id: id, live: liveIDs[id]}
-		for _, a := range logByConn[id] {
-			if isSetup(a) || a[0] == "PING" {
-				continue
-			}
-			v.cmds = append(v.cmds, a)
-		}
-		views = append(views, v)
-	}
-	for _, fc := range s.Conns() {
-		for i := range views {
-			if views[i].id == fc.ID {
-				s.Lock()
-				views[i].trk = fc.Tracking
-				s.Unlock()
-			}
-		}
-	}
+	views := serverViews(s)
 	cl.Close()
 	// ---- oracle ----
 	sessConn := map[string]int{}
@@ -483,6 +521,292 @@ func run(ci any) (res obs.Result) {
 	res.Nontrivial = len(conns) > 0
 	res.Obs = map[string]any{"pool_conns": len(conns), "shared_cmds": len(shared), "results": len(results)}
 	res.Site = "client.go:dedicatedSingleClient"
+	if len(problems) > 0 {
+		res.Oracle = strings.Join(problems, "; ")
+		res.Class = class
+	}
+	return
+}
+
+// runRetry: the retry family.  Session 1 issues a read-only command through Do / DoMulti with retries enabled; the
+// server answers -LOADING (the connection stays healthy) Loading times; the RetryDelay callback — the back-off of the
+// call — ends the session after attempt At (release or Close), puts a marker into the server's total order and lets
+// session 2 acquire a connection (after a release: the very same one) and open a transaction.  Also: the session
+// ended before the call (At = 0) and after it (At = -1).  Afterwards every entry point of session 1 is called.
+//
+// Direct oracle: once the session is ended the call returns ErrDedicatedClientRecycled (every result of a DoMulti),
+// the server saw exactly the attempts made before the end, nothing of session 1 follows the marker in the server's
+// total order, session 2's MULTI … EXEC holds exactly its own command, every entry point answers
+// ErrDedicatedClientRecycled, and the pool still serves a third session.
+func runRetry(c Case) (res obs.Result) {
+	rt := *c.Retry
+	switch {
+	case rt.At == 0:
+		res.Kind = "retry-before"
+	case rt.At < 0:
+		res.Kind = "retry-after"
+	default:
+		res.Kind = "retry-backoff-" + rt.How
+	}
+	res.Site = "client.go:dedicatedSingleClient"
+	res.Sig = fmt.Sprintf("%+v %+v", c.V7, rt)
+	res.Nontrivial = true
+	if rt.Loading < 1 || rt.Loading > 3 || rt.At > rt.Loading || (rt.Entry != "do" && rt.Entry != "multi") {
+		res.Kind, res.Nontrivial = "foreign", false
+		return
+	}
+	s := fakeredis.New()
+	if !c.V7 {
+		s.Version = "6.2.0"
+	}
+	s.Handle("DISCARD", func(fc *fakeredis.Conn, a []string) fakeredis.V { return fakeredis.Error("ERR DISCARD without MULTI") })
+	loadingLeft := int32(rt.Loading)
+	loading := fakeredis.Error("LOADING Redis is loading the dataset in memory")
+	s.Fault = func(fc *fakeredis.Conn, cseq int, argv []string) fakeredis.Action {
+		if len(argv) == 2 && argv[0] == "GET" && argv[1] == "d1:r" && atomic.AddInt32(&loadingLeft, -1) >= 0 {
+			return fakeredis.Action{Override: &loading}
+		}
+		return fakeredis.Action{}
+	}
+	var hook func(attempts int)
+	cl, err := rueidis.NewClient(rueidis.ClientOption{InitAddress: []string{"127.0.0.1:6379"}, DialCtxFn: s.Dial, ForceSingleClient: true,
+		DisableCache: true, PipelineMultiplex: -1, ReadBufferEachConn: 4096, WriteBufferEachConn: 4096, RingScaleEachConn: 6,
+		RetryDelay: func(attempts int, cmd rueidis.Completed, err error) time.Duration {
+			if hook != nil {
+				hook(attempts)
+			}
+			return 0
+		}})
+	if err != nil {
+		res.Oracle = "harness: " + err.Error()
+		return
+	}
+	defer cl.Close()
+	ctx := context.Background()
+	prog, results, problems := []string{}, []string{}, []string{}
+	class := ""
+	fail := func(cls, f string, a ...any) {
+		problems = append(problems, fmt.Sprintf(f, a...))
+		if class == "" {
+			class = cls
+		}
+	}
+	ddo := func(d int, a ...string) string { return obs.App("DDo", obs.N(uint64(d)), voc.Argv(a)) }
+	dtry := func(d int, a ...string) string { return obs.App("DTry", obs.N(uint64(d)), voc.Argv(a)) }
+	rec := func(d int, err error, released bool, what string) {
+		r := "ROk"
+		if err == rueidis.ErrDedicatedClientRecycled {
+			r = "RRecycled"
+		}
+		results = append(results, "("+strconv.Itoa(d)+", "+r+")")
+		switch {
+		case released && err != rueidis.ErrDedicatedClientRecycled:
+			fail("use-after-release", "session %d was ended (%s), %s returned %v instead of ErrDedicatedClientRecycled", d, rt.How, what, err)
+		case !released && err != nil && !rueidis.IsRedisNil(err):
+			fail("live-session-error", "session %d is live, %s failed with %v", d, what, err)
+		}
+	}
+	s1, rel1 := cl.Dedicate()
+	prog = append(prog, obs.App("DAcquire", "1"))
+	rec(1, s1.Do(ctx, s1.B().Set().Key("d1:k").Value("v").Build()).Error(), false, "Do(SET)")
+	prog = append(prog, ddo(1, "SET", "d1:k", "v"))
+	var s2 rueidis.DedicatedClient
+	var rel2 func()
+	ended := false
+	end := func() {
+		if rt.How == "rel" {
+			rel1()
+			prog = append(prog, obs.App("DRelease", "1"))
+		} else {
+			s1.Close()
+			prog = append(prog, obs.App("DClose", "1"))
+		}
+		ended = true
+		// a marker in the server's total order: everything of session 1 must come before it
+		cl.Do(ctx, cl.B().Set().Key("m:rel").Value("v").Build())
+		if rt.Next {
+			s2, rel2 = cl.Dedicate()
+			prog = append(prog, obs.App("DAcquire", "2"))
+			rec(2, s2.Do(ctx, s2.B().Multi().Build()).Error(), false, "Do(MULTI)")
+			prog = append(prog, ddo(2, "MULTI"))
+			rec(2, s2.Do(ctx, s2.B().Set().Key("d2:k").Value("v").Build()).Error(), false, "Do(SET) inside MULTI")
+			prog = append(prog, ddo(2, "SET", "d2:k", "v"))
+		}
+	}
+	if rt.At == 0 {
+		end()
+	}
+	// ---- the call ----
+	failedAttempts := 0
+	hook = func(attempts int) {
+		// the attempt that just ended got -LOADING: the call is in its back-off now
+		failedAttempts++
+		prog = append(prog, dtry(1, "GET", "d1:r"))
+		if rt.Entry == "multi" {
+			prog = append(prog, dtry(1, "GET", "d1:q"))
+		}
+		if attempts == rt.At && !ended {
+			end()
+		}
+	}
+	var callErrs []error
+	what := "Do(GET)"
+	if rt.Entry == "do" {
+		callErrs = []error{s1.Do(ctx, s1.B().Get().Key("d1:r").Build()).Error()}
+	} else {
+		what = "DoMulti(GET, GET)"
+		for _, r := range s1.DoMulti(ctx, s1.B().Get().Key("d1:r").Build(), s1.B().Get().Key("d1:q").Build()) {
+			callErrs = append(callErrs, r.Error())
+		}
+	}
+	hook = nil
+	wantRecycled := rt.At >= 0
+	// the final attempt of the call: rejected by check(), or sent and answered
+	prog = append(prog, ddo(1, "GET", "d1:r"))
+	rec(1, callErrs[0], wantRecycled, what)
+	if rt.Entry == "multi" {
+		if !wantRecycled {
+			prog = append(prog, ddo(1, "GET", "d1:q"))
+			results = append(results, "(1, ROk)")
+		}
+		for i, e := range callErrs[1:] {
+			if wantRecycled && e != rueidis.ErrDedicatedClientRecycled {
+				fail("use-after-release", "session 1 was ended (%s) in the back-off of the call, result %d of DoMulti is %v instead of ErrDedicatedClientRecycled", rt.How, i+1, e)
+			}
+			if !wantRecycled && e != nil && !rueidis.IsRedisNil(e) {
+				fail("live-session-error", "session 1 is live, result %d of DoMulti is %v", i+1, e)
+			}
+		}
+	}
+	wantFailed := rt.Loading
+	if rt.At >= 0 {
+		wantFailed = rt.At
+	}
+	if failedAttempts != wantFailed {
+		fail("retry-count", "%d attempts of the call were answered -LOADING and went into a back-off, expected %d (loading %d, session ended after attempt %d)", failedAttempts, wantFailed, rt.Loading, rt.At)
+	}
+	if rt.At < 0 {
+		end()
+	}
+	// ---- session 2 completes its transaction ----
+	if rt.Next {
+		ex := s2.Do(ctx, s2.B().Exec().Build())
+		rec(2, ex.Error(), false, "Do(EXEC)")
+		prog = append(prog, ddo(2, "EXEC"))
+		if arr, e := ex.ToArray(); e == nil && len(arr) != 1 {
+			fail("tx-broken", "session 2 queued one command between MULTI and EXEC, EXEC returned %d results: a command of the ended session 1 was written on its connection", len(arr))
+		}
+		rel2()
+		prog = append(prog, obs.App("DRelease", "2"))
+	}
+	// ---- every entry point of the ended session ----
+	rec(1, s1.Do(ctx, s1.B().Get().Key("d1:k").Build()).Error(), true, "Do")
+	prog = append(prog, ddo(1, "GET", "d1:k"))
+	rm := s1.DoMulti(ctx, s1.B().Get().Key("d1:k").Build(), s1.B().Get().Key("d1:q").Build())
+	var em error
+	for _, r := range rm {
+		if r.Error() != rueidis.ErrDedicatedClientRecycled {
+			em = r.Error()
+			if em == nil {
+				em = fmt.Errorf("a reply")
+			}
+		} else if em == nil {
+			em = r.Error()
+		}
+	}
+	rec(1, em, true, "DoMulti")
+	prog = append(prog, ddo(1, "GET", "d1:k"))
+	rctx, rcancel := context.WithTimeout(ctx, psx.Patience()) // a Receive that is not rejected would wait for ever
+	rec(1, s1.Receive(rctx, s1.B().Subscribe().Channel("d1:ch").Build(), func(rueidis.PubSubMessage) {}), true, "Receive")
+	rcancel()
+	prog = append(prog, obs.App("DSubscribe", "1", voc.Argv([]string{"SUBSCRIBE", "d1:ch"})))
+	for _, inval := range []bool{false, true} {
+		var ch <-chan error
+		if inval {
+			ch = s1.SetOnInvalidations(func([]rueidis.RedisMessage) {})
+		} else {
+			ch = s1.SetPubSubHooks(rueidis.PubSubHooks{OnMessage: func(rueidis.PubSubMessage) {}})
+		}
+		var e error
+		select {
+		case e = <-ch:
+		case <-time.After(psx.Patience()):
+		}
+		rec(1, e, true, map[bool]string{false: "SetPubSubHooks", true: "SetOnInvalidations"}[inval])
+		prog = append(prog, obs.App("DSetHooks", "1", "false", obs.Bool(inval)))
+	}
+	rel1()
+	s1.Close()
+	prog = append(prog, obs.App("DRelease", "1"), obs.App("DClose", "1"))
+	// ---- the pool still serves ----
+	s3, rel3 := cl.Dedicate()
+	prog = append(prog, obs.App("DAcquire", "3"))
+	rec(3, s3.Do(ctx, s3.B().Set().Key("d3:k").Value("v").Build()).Error(), false, "Do(SET)")
+	prog = append(prog, ddo(3, "SET", "d3:k", "v"))
+	rel3()
+	prog = append(prog, obs.App("DRelease", "3"))
+	// ---- the server's view ----
+	views := serverViews(s)
+	log := s.LogCopy()
+	marker := -1
+	sent := 0
+	for i, e := range log {
+		if e.InTx {
+			continue
+		}
+		if len(e.Argv) > 1 && e.Argv[1] == "m:rel" {
+			marker = i
+		}
+		if len(e.Argv) == 2 && e.Argv[0] == "GET" && e.Argv[1] == "d1:r" {
+			sent++
+		}
+		if marker >= 0 && i > marker && issuer(e.Argv) == "d1" {
+			fail("sent-after-release", "session 1 was ended (%s) %s; afterwards the server received %v on connection %d — a command of a released session reached the server%s",
+				rt.How, map[bool]string{true: "before the call", false: fmt.Sprintf("in the back-off after attempt %d of %s", rt.At, what)}[rt.At == 0], e.Argv, e.Conn,
+				map[bool]string{true: ", on the connection session 2 holds, between its MULTI and EXEC", false: ""}[rt.Next && rt.How == "rel" && rt.At >= 0])
+		}
+	}
+	wantSent := rt.Loading + 1
+	if rt.At >= 0 {
+		wantSent = rt.At
+	}
+	if sent != wantSent {
+		fail("sent-after-release", "the server received GET d1:r %d times, expected %d (loading %d, session ended after attempt %d)", sent, wantSent, rt.Loading, rt.At)
+	}
+	// per pool connection: contiguous blocks of issuers (nothing foreign inside session 2's transaction)
+	for _, v := range views {
+		if v.id == 1 {
+			continue
+		}
+		cur := ""
+		seen := map[string]bool{}
+		for _, a := range v.cmds {
+			is := issuer(a)
+			if is == "" || is == cur {
+				continue
+			}
+			if seen[is] {
+				fail("interleaved", "pool connection %d: commands of %s are interleaved with commands of %s: %v", v.id, is, cur, v.cmds)
+			}
+			seen[is] = true
+			cur = is
+		}
+	}
+	// ---- the model case ----
+	conns := []string{}
+	shared := [][]string{}
+	for _, v := range views {
+		if v.id == 1 {
+			shared = v.cmds
+			continue
+		}
+		conns = append(conns, "("+strconv.Itoa(v.id)+", "+obs.List(wcmds(v.cmds, !v.live))+")")
+	}
+	for _, a := range shared {
+		prog = append(prog, obs.App("SDo", voc.Argv(a)))
+	}
+	res.Coq = obs.App("CDed", "2", obs.Bool(c.V7), obs.List(prog), obs.List(conns), obs.List(results), voc.Argvs(shared))
+	res.Obs = map[string]any{"pool_conns": len(conns), "attempts_sent": sent, "results": len(results)}
 	if len(problems) > 0 {
 		res.Oracle = strings.Join(problems, "; ")
 		res.Class = class
